@@ -454,6 +454,16 @@ func clauseHasProp(c *Contract, p string) bool {
 			return true
 		}
 	}
+	for _, cl := range c.Checks {
+		if hasProp(cl.Props, p) {
+			return true
+		}
+	}
+	for _, ba := range c.BeforeAsserts {
+		if hasProp(ba.C.Props, p) {
+			return true
+		}
+	}
 	return false
 }
 
